@@ -16,7 +16,7 @@ Requests
   opts  = justify overflow nowrap (one character each, as Drv/C02: N d l c r f / N f c e i / N 0 1) joined by `,`
   tree  = prefix tokens joined by `|` (see `parseR`); a text token is the wire format of Drv/C02 (`decText?`)
 
-Static domain (anything else answers `unmodelled`): every text is consistent (`Text.Inv`), panel / rule titles are one-line simple
+Static domain (anything else answers `unmodelled`): every text is consistent (`Text.Inv`), rule titles are one-line simple
 texts, box names exist, tables have the same number of cells in every column, a `cast` does not directly wrap another `cast`.
 Dynamic domain: every request is evaluated under two different poisons (see Model/Layout.lean) and answers `unmodelled` when the
 results differ.
@@ -50,6 +50,11 @@ def decOpts (s : String) : Option Opts :=
   match s.splitOn "," with
   | [j, o, n] => do pure { justify := ← C02.decJustify? j, overflow := ← C02.decOverflow? o, noWrap := ← C02.decOptBool? n }
   | _ => none
+
+/-- bits 32 / 64 of the frames bitmask (as harness/props/c08.py): `titleAtConsoleWidth`, `ruleNoTitleEnd` -/
+def decFrameBits (s : String) : Bool × Bool :=
+  let n := decNat ((s.splitOn ",").headD "0")
+  (n / 32 % 2 == 1, n / 64 % 2 == 1)
 
 def decFlags (s : String) : Option (Frames.Variant × Wrap.WVariant × Flags) :=
   match (s.splitOn ",").take 3 with
@@ -207,7 +212,7 @@ partial def staticOk (rz : Bool) (env : Env) : R → Bool
   | .str t => invB t
   | .padding _ _ c => staticOk rz env c
   | .panel o c =>
-    (match unpackPad o.padding with | .ok _ => true | .error _ => false) && titleOk o.title && decide (0 ≤ o.width.getD 0)
+    (match unpackPad o.padding with | .ok _ => true | .error _ => false) && decide (0 ≤ o.width.getD 0)
       && (boxAt (substituteBox env (o.safeBox.getD env.safeBox) o.box)).isSome && staticOk rz env c
   | .align o c => decide (0 ≤ o.width.getD 0) && staticOk rz env c
   | .constrain _ c => staticOk rz env c
@@ -239,8 +244,8 @@ end
 def poisonA : List Seg := []
 def poisonB : List Seg := [seg [Char.ofNat 0xE000], nl, seg [Char.ofNat 0xE001], nl]
 
-def mkCfg (f : Frames.Variant × Wrap.WVariant × Flags) (env : Env) (poison : List Seg) : Cfg :=
-  { cw := cw, env := env, v := f.1, wv := f.2.1, fl := f.2.2, poison := poison }
+def mkCfg (f : Frames.Variant × Wrap.WVariant × Flags) (env : Env) (poison : List Seg) (fb : Bool × Bool := (false, false)) : Cfg :=
+  { cw := cw, env := env, v := f.1, wv := f.2.1, fl := f.2.2, titleAtConsoleWidth := fb.1, ruleNoTitleEnd := fb.2, poison := poison }
 
 def flatText (segs : List Seg) : List Char := (segs.filter (fun s => !s.control)).flatMap (·.text)
 
@@ -255,8 +260,8 @@ def handlers : List (String × (List String → String)) := [
       let r ← parseTree tree
       if !staticOk true env r then none else
       let w := decInt width
-      let a := consoleRender (mkCfg f env poisonA) r o w
-      let b := consoleRender (mkCfg f env poisonB) r o w
+      let a := consoleRender (mkCfg f env poisonA (decFrameBits flags)) r o w
+      let b := consoleRender (mkCfg f env poisonB (decFrameBits flags)) r o w
       if a != b then none else pure ("ok:" ++ encStr (flatText a))
     | _ => "unmodelled"),
   ("layout_measure", fun a => match a with
@@ -266,8 +271,8 @@ def handlers : List (String × (List String → String)) := [
       let r ← parseTree tree
       if !staticOk true env r then none else
       let w := decInt width
-      let a := measureGet (mkCfg f env poisonA) r w
-      let b := measureGet (mkCfg f env poisonB) r w
+      let a := measureGet (mkCfg f env poisonA (decFrameBits flags)) r w
+      let b := measureGet (mkCfg f env poisonB (decFrameBits flags)) r w
       if a != b then none else pure s!"m:{a.minimum},{a.maximum}"
     | _ => "unmodelled"),
   ("layout_smin", fun a => match a with
